@@ -126,6 +126,87 @@ theorem destsOK_sound (cfg : NCfg) (h : cfg.destsOK = true) (ev : Nat) : DestsRe
   simp only [NCfg.destsOKAt, hw, List.all_eq_true] at hat
   exact hat (ev, ts) (alookup_mem' hts) t ht
 
+/-! ### the API level: `model.<event>()` on an idle, unqueued machine is `_trigger_event` between two marks -/
+
+theorem ntriggerEvent_mono (sub : NSub) (sc : Script) (cfg : NCfg) (hC : NoCmds sc) (hwf : cfg.states.WF = true)
+    (x : Ctx) (ev : Nat) (s : NSt) : Mono (ntriggerEvent sub sc cfg x ev s) s := by
+  rw [ntriggerEvent_eq]
+  have hb := triggerEventBody_mono (sub := sub) (cfg := cfg) hC hwf x ev { s with result := none, exited := [] }
+  have hw := ntriggerWrap_ends (sub := sub) (cfg := cfg) hC (fun _ => True) (fun _ _ _ _ => trivial) x _ _
+    (⟨hb.noOof, fun s' hs' => by obtain ⟨g, l⟩ := hb.grow s' hs'; exact ⟨g, l, trivial⟩⟩ :
+      Ends (fun _ => True) _ { s with result := none, exited := [] })
+  exact ⟨hw.noOof, fun s' hs' => by obtain ⟨g, l, _⟩ := hw.grow s' hs'; exact ⟨g, l⟩⟩
+
+/-- on an idle unqueued machine `model.<event>()` executes a transition iff the `_trigger_event` it wraps does -/
+theorem napiTrigger_executes (sub : NSub) (sc : Script) (cfg : NCfg) (hC : NoCmds sc) (hwf : cfg.states.WF = true)
+    (hq : cfg.queued = false) (qmax ev : Nat) (s : NSt) (hidle : s.queue = []) :
+    (napiTrigger sub sc cfg qmax ev s ≠ .oof) ∧
+    (NExecutes (napiTrigger sub sc cfg qmax ev s) s ↔
+      NExecutes (ntriggerEvent sub sc cfg ⟨0, s.nextTag⟩ ev
+        ((({ s with nextTag := s.nextTag + 1 } : NSt).emit (.api 0 s.nextTag 0 ev)).emitG (.api s.nextTag ev)))
+        ((({ s with nextTag := s.nextTag + 1 } : NSt).emit (.api 0 s.nextTag 0 ev)).emitG (.api s.nextTag ev))) := by
+  have hm := ntriggerEvent_mono sub sc cfg hC hwf ⟨0, s.nextTag⟩ ev
+    ((({ s with nextTag := s.nextTag + 1 } : NSt).emit (.api 0 s.nextTag 0 ev)).emitG (.api s.nextTag ev))
+  have hproc : nmachineProcess sub sc cfg qmax ev s.nextTag
+      ((({ s with nextTag := s.nextTag + 1 } : NSt).emit (.api 0 s.nextTag 0 ev)).emitG (.api s.nextTag ev)) =
+      ntriggerEvent sub sc cfg ⟨0, s.nextTag⟩ ev
+        ((({ s with nextTag := s.nextTag + 1 } : NSt).emit (.api 0 s.nextTag 0 ev)).emitG (.api s.nextTag ev)) := by
+    unfold nmachineProcess
+    simp only [hq, Bool.not_false, if_true]
+    have : ((({ s with nextTag := s.nextTag + 1 } : NSt).emit (.api 0 s.nextTag 0 ev)).emitG (.api s.nextTag ev)).queue = [] :=
+      hidle
+    rw [this]
+  unfold napiTrigger
+  simp only [hproc]
+  generalize ntriggerEvent sub sc cfg ⟨0, s.nextTag⟩ ev
+    ((({ s with nextTag := s.nextTag + 1 } : NSt).emit (.api 0 s.nextTag 0 ev)).emitG (.api s.nextTag ev)) = r at hm
+  have hs1 : ((({ s with nextTag := s.nextTag + 1 } : NSt).emit (.api 0 s.nextTag 0 ev)).emitG (.api s.nextTag ev)).glog
+      = s.glog ++ [.api s.nextTag ev] := rfl
+  cases r with
+  | oof => exact absurd rfl hm.noOof
+  | ok b s' =>
+    obtain ⟨g1, l1⟩ := hm.grow s' rfl
+    rw [hs1] at l1
+    refine ⟨(by intro h; cases h), ?_⟩
+    constructor
+    · rintro ⟨s'', hs'', seg, l, he⟩
+      simp only [Res.state?, Option.some.injEq] at hs''
+      subst hs''
+      refine ⟨s', rfl, g1, by rw [hs1]; exact l1, ?_⟩
+      have l2 : s'.glog ++ [.ret s.nextTag b] = s.glog ++ seg := l
+      rw [l1, List.append_assoc, List.append_assoc] at l2
+      have := List.append_cancel_left l2
+      rw [← this, hasExec_append, hasExec_append] at he
+      simpa [hasExec] using he
+    · rintro ⟨s'', hs'', seg, l, he⟩
+      simp only [Res.state?, Option.some.injEq] at hs''
+      subst hs''
+      rw [hs1] at l
+      refine ⟨_, rfl, [.api s.nextTag ev] ++ seg ++ [.ret s.nextTag b], ?_, ?_⟩
+      · simp [NSt.emit, NSt.emitG, l]
+      · rw [hasExec_append, hasExec_append, he]; simp
+  | err e s' =>
+    obtain ⟨g1, l1⟩ := hm.grow s' rfl
+    rw [hs1] at l1
+    refine ⟨(by intro h; cases h), ?_⟩
+    constructor
+    · rintro ⟨s'', hs'', seg, l, he⟩
+      simp only [Res.state?, Option.some.injEq] at hs''
+      subst hs''
+      refine ⟨s', rfl, g1, by rw [hs1]; exact l1, ?_⟩
+      have l2 : s'.glog ++ [.raised s.nextTag e] = s.glog ++ seg := l
+      rw [l1, List.append_assoc, List.append_assoc] at l2
+      have := List.append_cancel_left l2
+      rw [← this, hasExec_append, hasExec_append] at he
+      simpa [hasExec] using he
+    · rintro ⟨s'', hs'', seg, l, he⟩
+      simp only [Res.state?, Option.some.injEq] at hs''
+      subst hs''
+      rw [hs1] at l
+      refine ⟨_, rfl, [.api s.nextTag ev] ++ seg ++ [.raised s.nextTag e], ?_, ?_⟩
+      · simp [NSt.emit, NSt.emitG, l]
+      · rw [hasExec_append, hasExec_append, he]; simp
+
 section Verdicts
 variable (sc : Script) (cfg : NCfg) (ev : Nat)
 
